@@ -32,6 +32,8 @@ type argVal struct {
 	Str   string   `json:"str,omitempty"`
 	Bool  bool     `json:"bool,omitempty"`
 	Elems []argVal `json:"elems,omitempty"`
+	Raw   bool     `json:"raw,omitempty"`   // num: the value is a plain Go int inside the caller's typed slice (never normalised to a formula number)
+	Typed string   `json:"typed,omitempty"` // arr: the value is the caller's typed Go slice of this name in the data ([]string, []int), not a literal
 }
 
 type callCase struct {
@@ -93,6 +95,8 @@ func c11Data(fn *spec.Fn, rec *spec.Recorder) map[string]interface{} {
 	return map[string]interface{}{
 		fn.Name: fn.Build(rec),
 		"m":     map[string]interface{}{"a": "x", "b": "y"},
+		"strs":  []string{"a", "b"}, // typed Go slices: arrays like any other, also as the operand of a spread
+		"ints":  []int{3, 4, 5},
 		"mn":    map[string]interface{}{"a": "x", "n": nil, "z": nil}, // a map with null entries: they arrive as nil entries, not as missing keys
 		"t":     c11Time,
 		"rec":   (&spec.Fn{Name: "rec", Params: []string{"int"}, Ret: "arg0"}).Build(rec),
@@ -148,6 +152,9 @@ func convOutcome(a argVal, p string) string {
 		}
 		return "either"
 	case "num":
+		if a.Raw && p == "dec" {
+			return "either" // a plain Go int element handed to a *decimal.Big parameter: conversion not promised
+		}
 		switch p {
 		case "int", "int8", "int16", "int32", "int64", "float32", "float64", "string", "any", "dec":
 			return "ok"
@@ -262,6 +269,10 @@ func matchArg(got interface{}, a argVal, p string, data map[string]interface{}) 
 			}
 			return back.Cmp(r) == 0
 		case "any", "dec":
+			if gi, isInt := got.(int); isInt && p == "any" {
+				// an element of the caller's []int handed on as it is
+				return new(big.Rat).SetInt64(int64(gi)).Cmp(r) == 0
+			}
 			d, ok := got.(*decimal.Big)
 			if !ok || d == nil {
 				return false
@@ -280,6 +291,9 @@ func matchArg(got interface{}, a argVal, p string, data map[string]interface{}) 
 		b, ok := got.(bool)
 		return ok && b == a.Bool
 	case "arr": // p == any
+		if a.Typed != "" { // the caller's own slice, handed on as it is
+			return reflect.DeepEqual(got, data[a.Typed])
+		}
 		arr, ok := got.([]interface{})
 		if !ok || len(arr) != len(a.Elems) {
 			return false
@@ -513,6 +527,8 @@ var c11Args = []argVal{
 	aStr("s"), aStr(""), aStr("12"), aStr("2024-01-02T03:04:05Z"), aStr("1e3"), aStr("null"),
 	aArr(), aArr(aNum("1", "1"), aNum("2", "2")), aArr(aStr("a"), aStr("b")), aArr(aNum("1", "1"), aStr("a")), aArr(aArr(aNum("1", "1"))), aArr(aNum("2.7", "27/10"), aNum("(-2.7)", "-27/10")), aArr(aNull),
 	aMap, aTime, {Text: "mn", Kind: "map"},
+	{Text: "strs", Kind: "arr", Typed: "strs", Elems: []argVal{aStr("a"), aStr("b")}},
+	{Text: "ints", Kind: "arr", Typed: "ints", Elems: []argVal{{Text: "3", Kind: "num", Num: "3", Raw: true}, {Text: "4", Kind: "num", Num: "4", Raw: true}, {Text: "5", Kind: "num", Num: "5", Raw: true}}},
 	viaCall(aNum("3", "3"), false), viaCall(aStr("s"), true), viaCall(aArr(aNum("1", "1"), aNum("2", "2")), true), viaCall(aNull, false),
 }
 
